@@ -12,6 +12,7 @@ import (
 	"pgregory.net/rapid"
 
 	"verif/harness/ev"
+	"verif/harness/gen"
 	"verif/harness/rp"
 )
 
@@ -68,6 +69,9 @@ func mutateText(t *rapid.T, s string) string {
 			pos = rapid.IntRange(0, len(r)).Draw(t, "pos")
 		}
 		ins := []rune(rapid.SampledFrom(hostile).Draw(t, "ins"))
+		if rapid.IntRange(0, 7).Draw(t, "ins.dict") == 0 {
+			ins = []rune(gen.DictString(t, "ins")) // a string literal from the library's own source
+		}
 		switch rapid.IntRange(0, 6).Draw(t, "kind") {
 		case 0: // insert
 			r = append(r[:pos:pos], append(ins, r[pos:]...)...)
